@@ -8,11 +8,13 @@ use vh::props::c20::ref_normalize;
 use vh::refparse;
 use vh::runner::*;
 
-pub const FILES: [&str; 3] = ["/p/f1.graphql", "/p/f2.graphql", "/p/f3.graphql"];
+/// the three files live in different directories, so that a relative import means something
+/// different depending on which file holds it
+pub const FILES: [&str; 3] = ["/p/f1.graphql", "/p/d/f2.graphql", "/p/d/e/f3.graphql"];
 pub const SOURCES: [&str; 6] = [
     "query A { a }\n",
-    "#import F2 from \"./f2.graphql\"\nquery B { ...F2 }\n",
-    "#import F3 from \"./d/../f3.graphql\"\nfragment F2 on Query { ...F3 }\n",
+    "#import F2 from \"./d/f2.graphql\"\nquery B { ...F2 }\n",
+    "#import F3 from \"./x/../e/f3.graphql\"\nfragment F2 on Query { ...F3 }\n",
     "query {",
     "",
     "# caf\u{e9} \u{65e5}\u{672c}\nfragment F3 on Query { a(x: \"\u{65e5}\u{672c}\u{1F600}\") }\n",
